@@ -25,7 +25,7 @@ func init() {
 		if err != nil {
 			return err
 		}
-		src := func(n ast.Node) string { return squash(c.src(mpr, n)) }
+		src := func(n ast.Node) string { return rowmergeSquash(c.src(mpr, n)) }
 
 		// ---- processBaseColumn: schema receivers of `<x>Type := m.<S>.GetNonPKCols().GetByIndex(<idx>)…`
 		pbc := findFunc(f, "valueMerger", "processBaseColumn")
@@ -193,7 +193,7 @@ func init() {
 			}
 		}
 		c.defStringList("diffOps", diffOps)
-		next := findMethodGeneric(tf, "ThreeWayDiffer", "Next")
+		next := rowmergeFindMethodGeneric(tf, "ThreeWayDiffer", "Next")
 		if next == nil {
 			return fmt.Errorf("ThreeWayDiffer.Next not found")
 		}
@@ -208,7 +208,7 @@ func init() {
 			}
 			for _, s := range cc.Body {
 				for is, ok := s.(*ast.IfStmt); ok && is != nil; {
-					dsMatch = append(dsMatch, squash(c.src(twd, is.Cond)))
+					dsMatch = append(dsMatch, rowmergeSquash(c.src(twd, is.Cond)))
 					nxt, ok2 := is.Else.(*ast.IfStmt)
 					if !ok2 {
 						break
@@ -257,13 +257,13 @@ func init() {
 				var flags []string
 				for _, s := range cc.Body { // top-level assignments only
 					if as, ok := s.(*ast.AssignStmt); ok && len(as.Lhs) == 1 {
-						l := squash(c.src(ms, as.Lhs[0]))
+						l := rowmergeSquash(c.src(ms, as.Lhs[0]))
 						if strings.HasPrefix(l, "mergeInfo.") || strings.HasPrefix(l, "diffInfo.") {
 							flags = append(flags, l[strings.Index(l, ".")+1:])
 						}
 					}
 				}
-				colCases = append(colCases, [2]string{squash(c.src(ms, cc.List[0])), strings.Join(flags, ",")})
+				colCases = append(colCases, [2]string{rowmergeSquash(c.src(ms, cc.List[0])), strings.Join(flags, ",")})
 				colFlags = append(colFlags, flags)
 			}
 			return false
@@ -307,7 +307,7 @@ func init() {
 		var hashConds []string
 		for _, st := range msc.Body.List {
 			if is, ok := st.(*ast.IfStmt); ok {
-				s := squash(c.src(mr, is.Cond))
+				s := rowmergeSquash(c.src(mr, is.Cond))
 				if strings.Contains(s, "Hash ==") {
 					hashConds = append(hashConds, s)
 				}
@@ -335,7 +335,7 @@ func init() {
 				}
 				switch exprName(ce.Fun) {
 				case "val.ModifyKeylessCardinality":
-					parts = append(parts, "card"+squash(c.src(kw, ce.Args[2])))
+					parts = append(parts, "card"+rowmergeSquash(c.src(kw, ce.Args[2])))
 				case "k.mut.Put", "k.mut.Delete", "k.Delete", "k.Insert":
 					parts = append(parts, exprName(ce.Fun))
 				}
@@ -358,7 +358,7 @@ func init() {
 		var resolveConds []string
 		for _, st := range rd.Body.List {
 			for is, ok := st.(*ast.IfStmt); ok && is != nil; {
-				cond := squash(c.src(cr, is.Cond))
+				cond := rowmergeSquash(c.src(cr, is.Cond))
 				if strings.Contains(cond, "ours") {
 					calls := callNames(is.Body)
 					resolveConds = append(resolveConds, cond+" => "+strings.Join(calls, ","))
@@ -381,7 +381,7 @@ func init() {
 			if !ok {
 				return true
 			}
-			cond := squash(c.src(cr, is.Cond))
+			cond := rowmergeSquash(c.src(cr, is.Cond))
 			if cond == "len(theirRow) == 0" {
 				rowUpdate = append(rowUpdate, cond+" => "+strings.Join(callNames(is.Body), ","))
 				if eb, ok := is.Else.(*ast.BlockStmt); ok {
@@ -397,7 +397,7 @@ func init() {
 }
 
 // squash collapses all white space runs to one blank.
-func squash(s string) string { return strings.Join(strings.Fields(s), " ") }
+func rowmergeSquash(s string) string { return strings.Join(strings.Fields(s), " ") }
 
 // flattenBin flattens a left-nested chain `a op b op c` into its operands' source text.
 func flattenBin(e ast.Expr, op token.Token, src func(ast.Node) string) []string {
@@ -427,7 +427,7 @@ func statIncrements(n ast.Node) []string {
 }
 
 // findMethodGeneric is findFunc for receivers with several type parameters (`*T[K, O]`).
-func findMethodGeneric(f *ast.File, recv, name string) *ast.FuncDecl {
+func rowmergeFindMethodGeneric(f *ast.File, recv, name string) *ast.FuncDecl {
 	for _, d := range f.Decls {
 		fd, ok := d.(*ast.FuncDecl)
 		if !ok || fd.Name.Name != name || fd.Recv == nil || len(fd.Recv.List) != 1 {
